@@ -1,0 +1,15 @@
+//go:build verif
+
+package pkcs12
+
+import (
+	"crypto/cipher"
+
+	"golang.org/x/crypto/pkcs12/internal/rc2"
+)
+
+// VerifRC2New re-exports pkcs12/internal/rc2.New (an internal package) for the
+// verification harness in /verif.
+func VerifRC2New(key []byte, t1 int) (cipher.Block, error) {
+	return rc2.New(key, t1)
+}
